@@ -919,7 +919,26 @@ pub fn scenario(g: &mut Gen) -> Vec<String> {
     v.push(format!("st addres r0 {}", n0));
     g.res.push(("r0".into(), n0));
     let other = format!("s{}", 1 + g.rng.below(2));
-    match g.rng.below(7) {
+    match g.rng.below(8) {
+        7 => {
+            // a range-compressed run of text selectors followed by several dataset / key / data selectors
+            v.push("st adddata s0 d0 k0 s:v0".into());
+            v.push("st adddata s1 d1 k1 s:v1".into());
+            g.sets.extend(["s0".to_string(), "s1".into()]);
+            g.data_ids.push(("s0".into(), "d0".into()));
+            g.data_ids.push(("s1".into(), "d1".into()));
+            let k = 2 + g.rng.below(2);
+            let mut subs: Vec<String> = (0..k).map(|i| format!("T:r0:b{}:b{}", i, i + 1)).collect();
+            let tail: Vec<String> = match g.rng.below(3) {
+                0 => vec!["S:s0".into(), "S:s1".into()],
+                1 => vec!["K:s0:k0".into(), "K:s1:k1".into()],
+                _ => vec!["D:s0:d0".into(), "D:s1:d1".into()],
+            };
+            subs.extend(tail);
+            v.push(format!("st annot a0 {}[{}]", g.rng.pick(&['M', 'C', 'X']), subs.join(";")));
+            g.anns.push("a0".into());
+            g.nann = 1;
+        }
         0 => {
             // vocabulary-only dataset, metadata annotation on one of its keys (own data elsewhere), annotation on that
             v.push("st addset s0 k0,k1".into());
